@@ -118,6 +118,24 @@ Theorem C01_tmpl_roundtrip : forall t p : msg,
 Proof. exact tmpl_roundtrip. Qed.
 Print Assumptions C01_tmpl_roundtrip.
 
+(* 8d. ... and the template the library itself makes (CreateMessageTemplate) qualifies, for every Message whose
+   fields all hold at least one item -- which every Message built through the API does *)
+Theorem C01_created_template_ok : forall p : msg, wf_msg p -> nz_msg p ->
+  same_shape (tmpl_of_msg p) p = true /\ wf_msg (tmpl_of_msg p) /\ ne_msg (tmpl_of_msg p).
+Proof. exact created_template_ok. Qed.
+Print Assumptions C01_created_template_ok.
+
+Theorem C01_tmpl_roundtrip_created : forall p : msg,
+  wf_msg p -> nz_msg p -> tmpl_flattened_size (tmpl_of_msg p) p < two32 ->
+  exists b, tmpl_flatten (tmpl_of_msg p) p = Some b /\ len b = tmpl_flattened_size (tmpl_of_msg p) p /\
+            tmpl_unflatten (tmpl_of_msg p) b = Ok (rt p).
+Proof. exact tmpl_roundtrip_created. Qed.
+Print Assumptions C01_tmpl_roundtrip_created.
+
+Theorem C01_api_reachable_nz : forall ops : list mop, Forall op_nz ops -> nz_msg (run ops empty_msg).
+Proof. exact api_reachable_nz. Qed.
+Print Assumptions C01_api_reachable_nz.
+
 (* 9. the domain boundary F9: a String with an embedded NUL is outside wf and does come back truncated *)
 Theorem C01_nul_string_truncates :
   unflatten (flatten nul_msg) = Ok (Msg 0 (FCons nm_a Gen.Consts.c_B_STRING_TYPE (RInline (IStr (cons Coq.Init.Byte.x61 nil))) FNil))
